@@ -353,6 +353,8 @@ def check_main(check_id, tier, seed, nomin=False):
     plan = mod.plan(tier)
     runs = int(os.environ.get('VERIF_RUNS', '') or plan['runs'])
     timeout = plan.get('timeout', 900)
+    if runs > plan['runs']:
+        timeout = int(timeout * runs / plan['runs']) + 60      # dev scans with VERIF_RUNS
     nsalts = getattr(mod, 'SALTS', 1)
     J = njobs()
     nshards = max(1, J // nsalts)
